@@ -272,6 +272,9 @@ def run_model(acc, source, spec, payload, with_filters=False, r=None):
     if with_filters:
         names = list(METHODS)
         filters = [[m] for m in names] + [[]] + [r.sample(names, r.randint(2, 10)) for _ in range(6)]
+        # two presets concatenated: a metric named twice is still reported once
+        filters += [["features", "leaf_features", "feature_groups", "features"], [names[0], names[0]],
+                    r.sample(names, 5) * 2, ["not_a_metric", "features"]]
         for flt in filters:
             def run(flt=flt):
                 op = FMMetrics()
@@ -377,6 +380,52 @@ def run_shard(desc, acc):
             history_reparent(acc, spec, {"source": "history:reparented", "spec": spec if len(S.feature_names(spec)) <= 40 else None})
         if len(acc.samples) < 2 and source == "random" and spec["ctcs"]:
             acc.sample({"source": source, "spec": spec if len(S.feature_names(spec)) <= 15 else "<large>"})
+    # models that are equal for FeatureModel.__eq__ (constraints compared in lower case) but differ in the letter
+    # case of a name used in a constraint, analysed one after the other while both are alive, and the same model
+    # re-analysed after one constraint was replaced (setter) by its case twin
+    from flamapy.core.models.ast import AST
+    from flamapy.metamodels.fm_metamodel.operations import FMMetrics as _FM
+    for j in range(4):
+        rr = rand.rng(seed, "c17twin", i, j)
+        base = rand.rand_model(rr, rr.randint(5, 12), group_kinds=("alternative", "or"))
+        nm = S.feature_names(base)
+        a, b, c, d = nm[1], nm[2], nm[3], nm[4] if len(nm) > 4 else nm[0]
+        twin = a.swapcase()
+        if twin == a or twin in nm:
+            continue
+        for f in S.features(base["root"]):
+            if f["name"] == b:
+                f["name"] = twin
+        p1 = dict(base, ctcs=[{"name": "k0", "ast": ["IMPLIES", a, c]}, {"name": "k1", "ast": ["IMPLIES", a, d]}])
+        p2 = dict(base, ctcs=[{"name": "k0", "ast": ["IMPLIES", a, c]}, {"name": "k1", "ast": ["IMPLIES", twin, d]}])
+        alive = []
+        for k, sp in enumerate((p1, p2, p1)):
+            m = S.build(sp)
+            alive.append(m)
+            payload = {"source": "history:case-twin-models", "spec": sp}
+            ok, rep = guard(acc, "history:case-twin-models", W, [], payload, lambda: _FM().execute(m).get_result())
+            if not ok:
+                continue
+            probs = judge_report(rep, sp, m)
+            if probs:
+                for clause, dd in dict(probs).items():
+                    acc.fail("history:case-twin-models", "history:" + clause, W, [], "report-wrong", dd, payload)
+            else:
+                acc.held("history:case-twin-models", S.digest(["twin", sp, k]))
+        # same model object, constraint replaced through the setter by its case twin
+        m = S.build(p1)
+        op = _FM()
+        op.execute(m)
+        m.ctcs[1].ast = AST(S.build_ast(["IMPLIES", twin, d]))
+        payload = {"source": "history:case-twin-setter", "spec": p2}
+        ok, rep = guard(acc, "history:case-twin-setter", W, [], payload, lambda: op.execute(m).get_result())
+        if ok:
+            probs = judge_report(rep, p2, m)
+            if probs:
+                for clause, dd in dict(probs).items():
+                    acc.fail("history:case-twin-setter", "history:" + clause, W, [], "report-wrong", dd, payload)
+            else:
+                acc.held("history:case-twin-setter", S.digest(["twin-setter", p2]))
     # filters on a pool
     r = rand.rng(seed, "c17f", i)
     for j in range(2):
